@@ -267,6 +267,21 @@ def gen_lifecycle(rng, n, max_cycles=3, p_cycle=0.5, reencode=False, reboot_host
     return steps
 
 
+def gen_interrupt(rng):
+    """where inside a library call the simulator raises (sim.World._call): among the first library
+    line events, among the last ones, or at a uniformly drawn fraction of all of them"""
+    r = rng.random()
+    if r < 0.3:
+        it = {"k": rng.randrange(1, 40)}
+    elif r < 0.6:
+        it = {"tail": rng.randrange(0, 40)}
+    else:
+        it = {"frac": round(rng.random(), 4)}
+    if rng.random() < 0.25:
+        it["exc"] = "KeyboardInterrupt"
+    return it
+
+
 def interleave(rng, seqs):
     """random merge of several per-node sequences preserving each one's order"""
     seqs = [list(s) for s in seqs if s]
